@@ -16,6 +16,7 @@ package main
 import (
 	"fmt"
 	"os"
+	"regexp"
 	"runtime/pprof"
 	"strconv"
 	"syscall"
@@ -26,6 +27,15 @@ import (
 )
 
 var stopProfile = func() {}
+
+// cfgFilter (diagnostics only, env C28_CFG_FILTER = regexp on "<group>:<name>"): run just the matching cases of
+// family (a); the run is then reported as capped, never as exhaustive.
+var cfgFilter = func() *regexp.Regexp {
+	if s := os.Getenv("C28_CFG_FILTER"); s != "" {
+		return regexp.MustCompile(s)
+	}
+	return nil
+}()
 
 const memGuard = 3 << 30 // RLIMIT_AS of a worker subprocess: protects the sandbox, see r.Assume below
 
@@ -56,6 +66,9 @@ func main() {
 	r.Assume("hang = no progress of one case within a 150 s harness horizon, reproduced a second time alone in a fresh process; a single stall is never reported")
 	r.Assume("byte strings are bounded to every prefix and every single-offset substitution from {00,ff,7f,c1,80,'{'} of the listed seeds (applied to the plain body, and to the gzip/zstd stream), plus the header product; collector-side processing of accepted spans is the decision step of makeDecision replayed on the captured spans with a rules-based and a dynamic sampler, followed by the real DirectTransmission serialisation")
 
+	if cfgFilter != nil {
+		r.Cap("diagnostic run: C28_CFG_FILTER restricts family (a) to cases matching " + cfgFilter.String())
+	}
 	var all []pviol
 	// ---- family (a)
 	if os.Getenv("C28_ONLY_REQ") == "" {
@@ -108,6 +121,10 @@ func childMain(w *worker) {
 		enumx.Each(cr, "cfg", []int{len(cases)}, 1, func(idx []int) {
 			i := idx[0]
 			if !w.mine(i) {
+				return
+			}
+			if cfgFilter != nil && !cfgFilter.MatchString(cases[i].Group+":"+cases[i].Name) {
+				w.add("cfg_filtered_out", 1)
 				return
 			}
 			w.begin(i)
